@@ -568,6 +568,8 @@ class C01(Spec):
             r = dur // 2 if rise is None else rise
             marks = [lb, lb + r, lb + dur - r, lb + dur]
             off = max(0, rng.choice(marks) + rng.randint(-2, 2)) if rng.random() < 0.6 else rng.randint(0, lb + dur + 5)
+            if rng.random() < 0.2:
+                off = 0          # from the beginning (spelled with `offset` left out in half of these)
             end = max(off, rng.choice(marks) + rng.randint(-2, 2)) if rng.random() < 0.6 else off + rng.randint(0, 400)
             yield {'kind': 'envelope_fn', 'window': e['window'], 'fs': fs, 'dur': e['dur'], 'rise': e['rise'],
                    'start': e['start'], 'off': off, 'n': end - off}
@@ -774,7 +776,7 @@ class C01(Spec):
         for i in range(nfn // 3):
             fs = rng.choice(S.FS_LIST)
             huge = i % 4 == 0
-            off = (1 << 31) + rng.randint(-2, 1 << 22) if huge else rng.randint(1, 5000)
+            off = (1 << 31) + rng.randint(-2, 1 << 22) if huge else rng.choice([0, rng.randint(1, 5000), rng.randint(1, 5000)])
             c = {'kind': rng.choice(['tone_fn', 'samtone_fn']), 'fs': fs, 'frequency': rng.uniform(20, fs / 4),
                  'fc': rng.uniform(100, fs / 4), 'fm': rng.uniform(2, 90), 'level': rng.choice([1.0, 0.37]),
                  'phase': rng.choice([0, 0.5]), 'polarity': rng.choice([1, -1]), 'off': off, 'n': rng.randint(0, 300),
@@ -989,9 +991,16 @@ class C01(Spec):
         if route == 'np':
             off, n = np.int64(off), np.int64(n)
 
+        # a caller who wants the fragment from the beginning simply leaves `offset` out: the default must BE 0
+        omit = (not ref) and route is None and int(off) == 0 and int(n) % 2 == 0
+
         def once():
             if k == 'envelope_fn':
                 tf = S.TRANSFORMS[c['transform']] if c.get('transform') else None
+                if omit and tf is None:
+                    if c['window'] == 'cosine-squared' and int(n) % 4 == 0:
+                        return stim.cos2envelope(fs, c['dur'], c['rise'], start_time=c['start'], samples=n)
+                    return stim.envelope(c['window'], fs, c['dur'], c['rise'], start_time=c['start'], samples=n)
                 if route == 'kw':
                     return stim.envelope(window=c['window'], fs=fs, duration=c['dur'], rise_time=c['rise'], offset=off,
                                          start_time=c['start'], samples=n, transform=tf)
@@ -1025,8 +1034,12 @@ class C01(Spec):
                 if route == 'kw':
                     return stim.tone(fs=fs, frequency=c['frequency'], level=c['level'], phase=c['phase'],
                                      polarity=c['polarity'], calibration=None, samples=n, offset=off)
+                if omit:
+                    return stim.tone(fs, c['frequency'], c['level'], c['phase'], c['polarity'], None, n)
                 return stim.tone(fs, c['frequency'], c['level'], c['phase'], c['polarity'], None, n, off)
             if k == 'samtone_fn':
+                if omit:
+                    return stim.sam_tone(fs, c['fc'], c['fm'], c['level'], 1, c['phase'], 0, 0, c['polarity'], None, n)
                 return stim.sam_tone(fs, c['fc'], c['fm'], c['level'], 1, c['phase'], 0, 0, c['polarity'], None, n, off)
             raise KeyError(k)
 
